@@ -104,12 +104,16 @@ func (u *upstream) Serve() {
 	wg.Wait()
 
 	// stop all clients
+	// NOTE: take the snapshot with the mutex held, but stop the clients without
+	// it: the reader of a client which is handling a redirection may be waiting
+	// for the mutex in createClient, and Stop waits for that reader. The snapshot
+	// is complete, createClient checks quit with the mutex held.
 	u.clientsMu.Lock()
 	clients := u.loadClients()
+	u.clientsMu.Unlock()
 	for _, c := range clients {
 		c.Stop()
 	}
-	u.clientsMu.Unlock()
 	close(u.done)
 }
 
